@@ -177,6 +177,9 @@ def origin_of_local(fn, l, depth=12, _seen=None):
         defs = [d for d in local_defs(fn).get(l, []) if d[1] != "partial"]
         if not defs:
             return Origin("arg", {"idx": l, "name": name or "_%d" % l, "ty": fn.locals[l]["ty"]})
+        # a parameter that is also assigned in the body (`mut` parameter): its value is the incoming argument or any of the
+        # assignments — opaque
+        return Origin("var", {"local": l, "name": name, "ndefs": len(defs) + 1, "is_arg": True})
     if depth <= 0 or l in _seen:
         return Origin("var", {"local": l, "name": name})
     if name is not None and l in mut_borrowed(fn):
